@@ -16,7 +16,7 @@ done
       for f in Aegean/$d/*.lean; do [ -e "$f" ] && echo "import Aegean.$d.$(basename "$f" .lean)"; done
     done; echo "import Aegean.Num"; echo "import Aegean.Py"; } | sort -u > Aegean.lean
   lake build 2>&1 | grep -v '^✔\|^ℹ' | tail -40
-  lake build >/dev/null 2>&1 )
+  lake build >/dev/null 2>&1 || echo "warning: some Lean modules do not build; each check rebuilds and reports its own" )
 # driver smoke test
 out=$(cd lean && printf 'bounds 10 3 1\n' | lake env lean --run Driver/MainC20.lean)
 [ "$out" = "3 6" ] || { echo "driver smoke test failed: $out"; exit 1; }
